@@ -1760,6 +1760,21 @@ def check_f0_atoms(ctx, case):
         _f0_compare(ctx, bud, '%s.xray.f0(Q)' % atom, atom.xray.f0, entry, Z - key[2])
         if bud.spent:
             return
+        if key[2] and (Z + key[2]) % 3 == 0:
+            # the x-ray record of an ion through copy / deepcopy / pickle (kept in a user's container): still that ion's
+            import copy
+            import pickle
+            for how, clone in (('copy.copy', copy.copy), ('copy.deepcopy', copy.deepcopy),
+                               ('pickle round trip', lambda x: pickle.loads(pickle.dumps(x)))):
+                ctx.count('clones.xray_record.' + how.split('.')[-1].split(' ')[0])
+                try:
+                    x2 = clone(atom.xray)
+                except Exception:
+                    ctx.count('clones.xray_record.refused')     # a record need not be copyable
+                    continue
+                _f0_compare(ctx, bud, '%s of %s.xray: f0(Q)' % (how, atom), x2.f0, entry, Z - key[2])
+                if bud.spent:
+                    return
 
 
 def check_constants(ctx, case):
